@@ -117,8 +117,8 @@ def apply(model, ref, op, res, seq, tm, tv):
                 model.add_sample([0, op[1]], np.array([VALS[1], VALS[2]]))
             else:
                 model.add_sample([0, 1], np.array([VALS[1]]))
-            return bad(op[0] + "-accepted", "ValueError", "accepted", "an invalid add_sample was not rejected")
-        except ValueError:
+            return bad(op[0] + "-accepted", "rejected", "accepted", "an invalid add_sample was not rejected")
+        except Exception:  # any exception counts as a rejection; the stored samples must be untouched (checked next)
             pass
         if any(not np.array_equal(a, b) for a, b in zip(before, model.design_samples)):
             return bad("rejected-add-changed-state", "unchanged", "changed", "a rejected add_sample modified the stored samples")
